@@ -6,6 +6,9 @@ package evt
 import (
 	"context"
 	"reflect"
+	"sync"
+
+	"ebuverif/vrt"
 
 	eventbus "github.com/jilio/ebu"
 )
@@ -88,20 +91,48 @@ type TypeOps struct {
 	Count     func(bus *eventbus.EventBus) int
 }
 
+type sharedOpts struct{ once, async, seq eventbus.SubscribeOption }
+
+var (
+	curShared   *sharedOpts
+	curSharedMu sync.Mutex // never contended under the controlled scheduler (no scheduling point inside)
+)
+
+func init() {
+	vrt.RegisterReset(func() {
+		curSharedMu.Lock()
+		curShared = nil
+		curSharedMu.Unlock()
+	})
+}
+
+func sharedOptions() *sharedOpts {
+	curSharedMu.Lock()
+	defer curSharedMu.Unlock()
+	if curShared == nil {
+		curShared = &sharedOpts{eventbus.Once(), eventbus.Async(), eventbus.Sequential()}
+	}
+	return curShared
+}
+
 func mkOps[T Ev](idx int) *TypeOps {
 	plain := [NSlots]eventbus.Handler[T]{Slot[T, S0], Slot[T, S1], Slot[T, S2], Slot[T, S3]}
 	ctxh := [NSlots]eventbus.ContextHandler[T]{SlotCtx[T, S0], SlotCtx[T, S1], SlotCtx[T, S2], SlotCtx[T, S3]}
 	rt := reflect.TypeOf((*T)(nil)).Elem()
 	opts := func(slot int, o SubOpts) []eventbus.SubscribeOption {
+		// the slot subscriptions of one execution reuse ONE value of each stateless option
+		// (an application that keeps `opts := []SubscribeOption{Once(), Async()}` around does
+		// the same); SubCustom builds fresh ones for every call
+		so := sharedOptions()
 		var l []eventbus.SubscribeOption
 		if o.Once {
-			l = append(l, eventbus.Once())
+			l = append(l, so.once)
 		}
 		if o.Async {
-			l = append(l, eventbus.Async())
+			l = append(l, so.async)
 		}
 		if o.Sequential {
-			l = append(l, eventbus.Sequential())
+			l = append(l, so.seq)
 		}
 		switch o.Filter {
 		case 1:
